@@ -226,6 +226,13 @@ static json handle(json const &cmd)
     return r;
   }
 #endif
+  if (op == "seq") {
+    // several commands in one round trip; stops at the first reply that is not an object with rc
+    json out = json::array();
+    for (auto const &c : cmd.at("cmds")) out.push_back(handle(c));
+    r["replies"] = out; r["rc"] = 0;
+    return r;
+  }
   if (op == "quit") { if (P) { delete P; P = nullptr; } r["rc"] = 0; return r; }
   if (op == "memstream") { json m = memstream_case(cmd); m["op"] = op; return m; }
   if (op == "mkdir") {
